@@ -18,6 +18,9 @@ SHARED = ["aten::mm", "aten::add", "cudaLaunchKernel", "Memcpy HtoD (Pageable ->
           "void at::native::vectorized_elementwise_kernel<4, at::native::FillFunctor<float>>(int)", "Context Sync", "Event Sync",
           "élève::中文", "", " leading space", "Trace"]
 
+FIELD_LIKE_KEYS = ["name", "Name", "NAME.", "name (x)", "Ts", "ts", "Dur", "dur (us)", "Cat", "cat", "Pid", "pid", "Tid", "tid",
+                   "Trace name", "Python id", "Ev Idx", "grid", "est. achieved occupancy %"]
+
 TS_MODES = ["int", "int", "dyadic", "decimal", "intts_fracdur", "int_as_float", "fracts_intdur"]
 
 
@@ -97,6 +100,9 @@ def gen_rank(rnd: random.Random, rank: int, p: Dict[str, Any]) -> Dict[str, Any]
                     args["External id"] = rnd.randint(1, 1000)
                 if rnd.random() < 0.1:
                     args["Input Dims"] = [[2, 3], []]
+                if p.get("field_like_args") and rnd.random() < 0.3:
+                    # arg keys that normalise to one of the event's own fields (matter under parse_all_args)
+                    args[rnd.choice(FIELD_LIKE_KEYS)] = rnd.choice([7, "x", 2.5, 0])
                 e["args"] = args
             elif a < 0.8:
                 e["args"] = None
@@ -146,7 +152,8 @@ def gen_fileset(rnd: random.Random, tier: str, big: bool = False) -> Dict[str, A
     p = {"n_ranks": n_ranks, "ts_mode": ts_mode, "base": base, "n_events": n_events,
          "trange": rnd.choice([3, 20, 300, 5000]), "vocab": rnd.choice([1, 4, 12]),
          "steps": rnd.choice([0, 0, 0, 1]), "p_complete": rnd.choice([0.55, 0.7, 0.9, 1.0]),
-         "shuffle": rnd.random() < 0.4, "per_rank_offset": rnd.choice([0, 0, 1000, -7])}
+         "shuffle": rnd.random() < 0.4, "per_rank_offset": rnd.choice([0, 0, 1000, -7]),
+         "field_like_args": rnd.random() < 0.3}
     files = {}
     for r in range(n_ranks):
         q = dict(p)
